@@ -187,4 +187,72 @@ MUTANTS = [
     ("C19-error-codes-counted-over-flattened-log", "liesel/goose/summary_m.py",
      "            occurences_per_chain = np.sum(kel.error_codes == ec, axis=1)\n            counter_dict[ec] = occurences_per_chain\n",
      "            occurences_per_chain = np.sum(kel.error_codes == ec, axis=1)\n            counter_dict[ec] = np.sort(occurences_per_chain)[::-1]\n"),
+    # ------------------------------------------------------------------ C01
+    ("C01-setter-flags-direct-outputs-only", "liesel/model/nodes.py",
+     """        if self.model:
+            for node in self.outputs:
+                node.flag_outdated()
+""",
+     """        if self.model:
+            for node in self.outputs:
+                node._outdated = True
+"""),
+    ("C01-transient-outdated-all", "liesel/model/nodes.py",
+     "        return any(_input.outdated for _input in self.all_input_nodes())\n",
+     "        return all(_input.outdated for _input in self.all_input_nodes())\n"),
+    ("C01-recursive-inputs-without-kwinputs-and-at", "liesel/model/model.py",
+     "            nodes.extend(node.all_input_nodes())\n            visited.append(node)\n\n        return visited\n",
+     "            nodes.extend(node.inputs)\n            visited.append(node)\n\n        return visited\n"),
+    ("C01-dist-all-input-nodes-drops-at", "liesel/model/nodes.py",
+     """        if self.at:
+            inputs = _unique_tuple(inputs, [self.at])
+
+        return inputs""",
+     """        return inputs"""),
+    ("C01-calc-flag-cleared-before-evaluation", "liesel/model/nodes.py",
+     """        kwargs = {kw: _input.value for kw, _input in self.kwinputs.items()}
+        try:
+            self._value = self.function(*args, **kwargs)
+        except Exception as e:
+            raise RuntimeError(f"Error while updating {self}.") from e
+        self._outdated = False
+        return self""",
+     """        kwargs = {kw: _input.value for kw, _input in self.kwinputs.items()}
+        self._outdated = False
+        try:
+            self._value = self.function(*args, **kwargs)
+        except Exception as e:
+            raise RuntimeError(f"Error while updating {self}.") from e
+        return self"""),
+    ("C01-state-setter-skips-flag", "liesel/model/nodes.py",
+     """    @state.setter
+    def state(self, state: NodeState):
+        self._value = state.value
+        self._outdated = state.outdated
+
+    @abstractmethod""",
+     """    @state.setter
+    def state(self, state: NodeState):
+        self._value = state.value
+
+    @abstractmethod"""),
+    ("C01-auto-update-targets-direct-outputs", "liesel/model/nodes.py",
+     "            if self.model.auto_update:\n                self.model.update()\n",
+     "            if self.model.auto_update:\n                self.model.update(*(n.name for n in self.outputs))\n"),
+    ("C01-targeted-update-skips-clean-looking-targets", "liesel/model/model.py",
+     "                if node in inputs and node.outdated:\n                    node.update()\n",
+     "                if node in inputs and node._outdated:\n                    node.update()\n"),
+    ("C01-full-update-stops-at-first-clean-node", "liesel/model/model.py",
+     """            for node in self._sorted_nodes:
+                if node.outdated:
+                    node.update()
+        else:""",
+     """            seen_dirty = False
+            for node in self._sorted_nodes:
+                if node.outdated:
+                    seen_dirty = True
+                    node.update()
+                elif seen_dirty and not node.all_input_nodes():
+                    break
+        else:"""),
 ]
